@@ -130,7 +130,7 @@ class Runner:
         cp = os.path.join(d, "case.ndjson")
         vp = os.path.join(d, "verdict.ndjson")
         vlib.write_ndjson(cp, [case])
-        ctx.run([self.bin, "replay", cp, vp], env={"C05_ONE_VARIANT": "0"})
+        ctx.run([self.bin, "replay", cp, vp], env={"C05_ONE_VARIANT": "all"})
         return [v for v in vlib.read_ndjson(vp) if not v["ok"]]
 
     def report(self, fails, stratum):
@@ -151,6 +151,11 @@ class Runner:
             k2 = key if key[0] != "mix" else ("mix", "", key[2])
             merged.setdefault(k2, []).extend(lst)
         for key, lst in sorted(merged.items()):
+            lst.sort(key=lambda cv: (_ntok(cv[0]), cv[0]["id"]))
+            if key[0] == "feat" and not (_ops(lst[0][0]) - BASE):
+                # the smallest failing program does not even use the operator of its family: the
+                # failure is in the container (INDEX, DICT, FD selection, width defaults)
+                key = ("container", "", key[2])
             if key[0] == "feat":
                 self.failed_feats.add(key[1])
             if key in self.reported:
@@ -184,7 +189,7 @@ class Runner:
                         % (v["field"], v["detail"], len(lst), len(fails), key[:2], _ntok(c), special,
                            json.dumps(c["main"])[:500],
                            (" subrs " + json.dumps(c["subrs"])[:300]) if c["subrs"] else ""))
-            sig = {"stratum": stratum, "group": key[0], "op": key[1] if key[0] != "mix" else ",".join(special),
+            sig = {"stratum": stratum, "group": key[0], "op": key[1] if key[0] in ("feat", "fault") else ",".join(special),
                    "kind": v["kind"], "unit": c["unit"]}
             ctx.violation(what, sig=sig, case=c)
 
